@@ -14,12 +14,17 @@ theorem shapeV_viewS (i : Instr) : shapeV (viewS i) = shape i := by
   | callNative k n =>
     have h1 : ("calln" == "index") = false := by decide
     have h2 : ("calln" == "indexarray") = false := by decide
-    simp [viewS, shapeV, shape, kindOfCode_kindCode, h1, h2]
+    have h3 : ("calln" == "push") = false := by decide
+    simp [viewS, shapeV, shape, kindOfCode_kindCode, h1, h2, h3]
+  | push v =>
+    cases h : isArrJV v <;> simp [viewS, shapeV, shape, h] <;> decide
   | index k =>
-    cases h : nonNull k <;> simp [viewS, shapeV, shape, h] <;> decide
+    have h3 : ("index" == "push") = false := by decide
+    cases h : nonNull k <;> simp [viewS, shapeV, shape, h, h3] <;> decide
   | indexarray k =>
     have h1 : ("indexarray" == "index") = false := by decide
-    cases h : nonNull k <;> simp [viewS, shapeV, shape, h, h1] <;> decide
+    have h3 : ("indexarray" == "push") = false := by decide
+    cases h : nonNull k <;> simp [viewS, shapeV, shape, h, h1, h3] <;> decide
   | _ => rfl
 
 theorem map_shapeV_viewS (c : Array Instr) : (c.map viewS).map shapeV = c.map shape := by
